@@ -144,7 +144,7 @@ def registry_witnesses(name, mod, rng, k):
     return out
 
 
-def date_sources(name, mod, rng, k):
+def date_sources(name, mod, rng, k, require_valid=True):
     """Valid numbers with forced date fields: leap days, month/day extremes, unknown parts (00), century markers."""
     out = []
     f = FIELDS.get(name)
@@ -169,6 +169,12 @@ def date_sources(name, mod, rng, k):
                 s[m0:m1] = list('%02d' % ((M + moff) % 100))
                 s[d0:d1] = list('%02d' % ((D + doff) % 100))
                 cand = ''.join(s)
+                if not require_valid:
+                    # raw candidates with every ending (the check characters are usually last): the caller wants inputs, not valid numbers
+                    out.append(cand)
+                    if cand[-2:].isdigit():
+                        out.extend(cand[:-2] + '%02d' % e for e in range(100))
+                    continue
                 if C.outcome(mod.is_valid, cand) != ('ok', True):
                     cand = C._repair(mod, cand)
                     if cand is None or cand[min(y0, m0, d0):max(y1, m1, d1)] != ''.join(s)[min(y0, m0, d0):max(y1, m1, d1)]:
